@@ -44,6 +44,16 @@ def cases(tier, seed):
             for rep in range(2 if tier == "quick" else 24):
                 out.append({"kind": "tri", "cls": f"tri:rhs{nrhs}", "n": n, "nrhs": nrhs, "idx": idx, "seed": seed})
                 idx += 1
+    if tier == "quick":
+        # size ladder beyond plausible panel widths (8 / 16 / 32)
+        for k in (9, 12, 16, 17, 18, 24, 33):
+            for pat in ("generic", "arnoldi_like", "axis_subdiag"):
+                out.append({"kind": "hess", "cls": "hess:" + pat, "k": k, "pat": pat, "idx": idx, "seed": seed})
+                idx += 1
+        for n in (9, 12, 16, 17, 18, 24, 33):
+            for nrhs in (1, 3):
+                out.append({"kind": "tri", "cls": f"tri:rhs{nrhs}", "n": n, "nrhs": nrhs, "idx": idx, "seed": seed})
+                idx += 1
     out.append({"kind": "inv", "cls": "dotinv_abs", "seed": seed})
     return out
 
